@@ -101,6 +101,11 @@ class SystemComponent(BaseComponent):
 
         else:
             output_changes, call_in = on_tick.result()
+            if len(self.scheduler.interrupts) > 0:
+                # an inner component raised an interrupt while this tick was running:
+                # ask to be called back at once, otherwise this output's call_at would
+                # replace the wakeup the interrupt has just scheduled
+                call_in = time
             await self.output(time, output_changes, call_in)
 
     async def stop_component(self) -> None:
